@@ -181,3 +181,15 @@ mod tests {
         assert_eq!(suggestion.get_suggestions(), ["হ"]);
     }
 }
+
+/// Verification hook (cfg(riti_verif) only): the meta character splitter and the smart quoter,
+/// which are otherwise private, for the native replay driver.
+#[cfg(riti_verif)]
+pub fn verif_split(input: &str, include_colon: bool, smart_quote: bool) -> (String, String, String) {
+    let mut splitted = crate::utility::SplittedString::split(input, include_colon);
+    if smart_quote {
+        splitted = crate::utility::smart_quoter(splitted);
+    }
+    let (preceding, word, trailing) = splitted.as_tuple();
+    (preceding.to_string(), word.to_string(), trailing.to_string())
+}
